@@ -61,16 +61,17 @@ bool after(Ctx &x, const LoggerPtr &lg, const std::string &service, const std::s
     ++x.calls;
     x.c.count("calls");
     x.c.count("calls:" + service);
-    std::string v = c15::kitLogger(lg);
-    if (!v.empty()) {
-        x.c.fail("C15." + v.substr(0, v.find('|')) + "|" + service + "|" + detail, call + ": " + v + "\n" + x.log);
-        return false;
-    }
-    v = c15::strictLogger(lg);
+    // the stricter oracle first: it names the rule / accessor / item type at fault; then the kit's monitor (what every other harness runs)
+    std::string v = c15::strictLogger(lg);
     if (!v.empty()) {
         size_t p = v.find('|');
         size_t q = v.find('|', p + 1);
         x.c.fail("C15." + v.substr(0, p) + "|" + service + "|" + detail + ":" + v.substr(p + 1, q - p - 1), call + ": " + v.substr(q + 1) + "\n" + x.log);
+        return false;
+    }
+    v = c15::kitLogger(lg);
+    if (!v.empty()) {
+        x.c.fail("C15." + v.substr(0, v.find('|')) + "|" + service + "|" + detail, call + ": " + v + "\n" + x.log);
         return false;
     }
     size_t ne = lg->errorCount(), nw = lg->warningCount(), nm = lg->messageCount(), n = lg->issueCount();
